@@ -88,7 +88,7 @@ func VerifC03_HandOver() {
 		if lost == move {
 			cl.drop = 1
 		}
-		merr := f.Move(part, "dmap.d", []discovery.Member{cl.members[1].member})
+		merr := f.Move(part, "d", []discovery.Member{cl.members[1].member})
 		cl.drop = 0
 		if lost != move {
 			vpAssert(merr == nil, "move-succeeds")
